@@ -1,6 +1,6 @@
 import CallbagModel.Ops.Pipeline
 import CallbagModel.Script
-import CallbagModel.Closed.Exec
+import CallbagModel.Closed.LinearDef
 /-!
 # Pipelines (C06): parse the textual description shared with harness/src/pipe.rs, evaluate the model (`sem`, `listSem`), compare
 -/
@@ -62,23 +62,25 @@ partial def toPipe : Sx → Option Pipe
       | _, _ => none
   | _ => none
 
-/-- LINEAR programs (a source followed by unary stages) as ONE machine: the operator machines of `Ops/` wired by `compose` -/
-partial def toAnyM : Sx → Option Closed.AnyM
-  | .list [.atom "src", n] => (sxNat n).map fun n => Closed.srcM (rangeFrom 1 n)
-  | .list [.atom "src", n, a] => match sxNat n, sxInt a with | some n, some a => some (Closed.srcM (rangeFrom a n)) | _, _ => none
-  | .list [.atom "inf", a] => (sxInt a).map fun a => Closed.srcM (rangeFrom a infLen)
-  | .list [.atom "map", .atom "add", k, p] => match sxInt k, toAnyM p with
-    | some k, some A => some (Closed.thenM A (Closed.relayM (Relay.map (· + k)))) | _, _ => none
-  | .list [.atom "map", .atom "mul", k, p] => match sxInt k, toAnyM p with
-    | some k, some A => some (Closed.thenM A (Closed.relayM (Relay.map (· * k)))) | _, _ => none
-  | .list [.atom "filter", .atom "mod", m, r, p] => match sxInt m, sxInt r, toAnyM p with
-    | some m, some r, some A => some (Closed.thenM A (Closed.relayM (Relay.filter (fun x => x % m == r)))) | _, _, _ => none
-  | .list [.atom "scan", .atom "lin", b, s, p] => match sxInt b, sxInt s, toAnyM p with
-    | some b, some s, some A => some (Closed.thenM A (Closed.relayM (Relay.scan (scanLinP b) s))) | _, _, _ => none
-  | .list [.atom "take", n, p] => match sxNat n, toAnyM p with | some n, some A => some (Closed.thenM A (Closed.takeM n)) | _, _ => none
-  | .list [.atom "skip", n, p] => match sxNat n, toAnyM p with
-    | some n, some A => some (Closed.thenM A (Closed.relayM (Relay.skip n))) | _, _ => none
+/-- LINEAR programs (a source followed by unary stages): the input list and the stages, innermost (first applied) stage first -/
+partial def toLinear : Sx → Option (List Int × List Closed.Stg)
+  | .list [.atom "src", n] => (sxNat n).map fun n => (rangeFrom 1 n, [])
+  | .list [.atom "src", n, a] => match sxNat n, sxInt a with | some n, some a => some (rangeFrom a n, []) | _, _ => none
+  | .list [.atom "inf", a] => (sxInt a).map fun a => (rangeFrom a infLen, [])
+  | .list [.atom "map", .atom "add", k, p] => match sxInt k, toLinear p with
+    | some k, some (xs, ss) => some (xs, ss ++ [.map (· + k)]) | _, _ => none
+  | .list [.atom "map", .atom "mul", k, p] => match sxInt k, toLinear p with
+    | some k, some (xs, ss) => some (xs, ss ++ [.map (· * k)]) | _, _ => none
+  | .list [.atom "filter", .atom "mod", m, r, p] => match sxInt m, sxInt r, toLinear p with
+    | some m, some r, some (xs, ss) => some (xs, ss ++ [.filter (fun x => x % m == r)]) | _, _, _ => none
+  | .list [.atom "scan", .atom "lin", b, s, p] => match sxInt b, sxInt s, toLinear p with
+    | some b, some s, some (xs, ss) => some (xs, ss ++ [.scan (scanLinP b) s]) | _, _, _ => none
+  | .list [.atom "take", n, p] => match sxNat n, toLinear p with | some n, some (xs, ss) => some (xs, ss ++ [.take n]) | _, _ => none
+  | .list [.atom "skip", n, p] => match sxNat n, toLinear p with | some n, some (xs, ss) => some (xs, ss ++ [.skip n]) | _, _ => none
   | _ => none
+
+/-- … as ONE machine: `Closed.chainM xs ss` — the term `Closed.linear_correct` (Closed/Linear.lean) is about -/
+def toAnyM (sx : Sx) : Option Closed.AnyM := (toLinear sx).map fun (xs, ss) => Closed.chainM xs ss
 
 def fmtL (l : List Int) : String := "[" ++ ",".intercalate (l.map toString) ++ "]"
 
